@@ -20,7 +20,7 @@ CHECKS = {
          "EITHER region (zero first octet, >3-digit octets, untagged IPv6, '::' for one group, tag case) is deliberately not judged.", "DESIGN.md 4/C05"),
 
  "C01": ("exploration", "sanitizer build + differential monitor: high-level decision/code vs composition of the library's own per-part validators",
-         "eav_is_email and is_<rfc>_email in 4 modes x tld off/on on ~4*10^4 (quick) to ~10^6 (thorough) addresses; each decision and error code must be a member of the composition of the public per-part validators applied by the driver to the halves split at the last '@'; wiring (mode set before setup is applied, later unconfirmed rfc is not) probed on every address.",
+         "eav_is_email and is_<rfc>_email in 4 modes x tld off/on on ~4*10^4 (quick) to ~10^6 (thorough) addresses; each decision and error code must be a member of the composition of the public per-part validators applied by the driver to the halves split at the last '@'; wiring (mode set before setup is applied, later unconfirmed rfc is not - also after 66 000 validations, a second set-up is applied also when another object was set up in between) probed on every address; inputs at 16 alignments and in read-only pages; every IDN conversion forced to fail; local parts of 2^31 bytes.",
          "validity of each half is defined by the library's validators (C02-C05 judge those); bracketed domains shorter than 9 bytes not judged.", "DESIGN.md 4/C01"),
  "C07": ("exploration", "sanitizer build + table-driven reference lookup monitor over all rows, near misses and random labels",
          "rc / decision / error code of every mode (tld on) and is_tld() directly, for all 1591 rows x case forms x prefixes, every proper prefix / extension / substitution / splice of every row, random labels; U- vs A-label spelling of all IDN TLDs in mode 6531.",
@@ -48,10 +48,10 @@ CHECKS = {
          "'syntactically invalid' = composition of per-part validators rejects with tld off.", "DESIGN.md 4/C16"),
 
  "C06": ("exploration", "ASan+UBSan+LSan builds, guard-page/read-only placement, valgrind memcheck on uninitialised eav_t, allocation ledger via sanitizer malloc hooks, callgrind instruction-count cost clock, libFuzzer (thorough)",
-         "Every public entry point is driven on structural byte sweeps, the address corpus, 64 KiB-256 KiB adversarial families and random bytes under five independent instruments; any sanitizer report, fault at a guard page, memcheck error, ledger imbalance, abort or super-linear instruction growth is a violation.",
+         "Every public entry point is driven on structural byte sweeps, the address corpus, 64 KiB-256 KiB adversarial families and random bytes under five independent instruments; any sanitizer report, fault at a guard page, memcheck error, ledger imbalance, abort or super-linear instruction growth is a violation; 9 MiB inputs under ASan, both halves handed to the direct validators, size-ladder histories on one object.",
          "evidence on reached paths only; intra-object overflows and libidn2 internals are not seen; allocation failure excluded by the statement.", "DESIGN.md 4/C06"),
  "C13": ("exploration", "history runner with fresh-object differential + allocation ledger (sanitizer malloc hooks) under ASan/LSan",
-         "All op sequences to length 4/5(6 pruned) and random histories to length 200 on one eav_t; after every eav_is_email a fresh object with the model's settings must give the identical observation (return, code, message, result fields); ledger: previous result released by the next call, nothing live after eav_free.",
+         "All op sequences to length 4/5(6 pruned) and random histories to length 200 on one eav_t; after every eav_is_email a fresh object with the model's settings must give the identical observation (return, code, message, result fields); and every step of the exhaustive set must equal the outcome of a new process; decoy objects with other settings (one failing in the IDN library) work between all operations and must never change; near-duplicate and digest-colliding addresses back to back; 66 000 validations on one object; ledger: the current record is live, held memory does not keep growing, nothing is live after eav_free.",
          "10-line sequential model of (confirmed mode, tld_check, allow_tld); errstr after a failed setup is judged by C15.", "DESIGN.md 4/C13"),
  "C14": ("exploration", "ThreadSanitizer + helgrind/drd race detection on a stress runner, with sequential-outcome comparison and measured call overlap",
          "2-16 threads x thousands of calls on 16 shared read-only strings, 13 call kinds, yield/sleep perturbation, several seeds; every outcome compared with a sequential reference; overlapping call pairs measured from per-call clock intervals; the libidn and idnkit source sets (against a lock-protected adapter) under TSan too; hundreds of cold process starts and IDN-failure storms at full speed.",
@@ -60,13 +60,13 @@ CHECKS = {
          "Same bounded-exhaustive local parts / domains and the address corpus through all 8 builds; documented relation checked along every edge; default Makefile flags read from make -n.",
          "RFC6531_FOLLOW_RFC5322 is specified for pure-ASCII local parts only.", "DESIGN.md 4/C17"),
  "C18": ("exploration", "differential monitor across the three back-end source sets built against adapters + context create/destroy ledger",
-         "partial/idn2, partial/idn, partial/idnkit compiled against adapters onto the same libidn2 converter; identical records demanded on the address corpus, the complete policy enumeration and C13 histories; idnkit context ledger (creates == destroys, no use after destroy, no double destroy) after every history.",
+         "partial/idn2, partial/idn, partial/idnkit compiled against adapters onto the same libidn2 converter; identical records demanded on the address corpus, the complete policy enumeration and C13 histories; idnkit context ledger (creates == destroys, no use after destroy, no double destroy) after every history, incl. planned creation failures and 66 000-call runs; the C07 / C09 / C10 domain corpora through all three; EAV_EXTRA builds; memcheck definedness for the foreign back ends.",
          "real libidn/idnkit absent: 'given equivalent IDN conversions' is realised by the adapters.", "DESIGN.md 4/C18"),
  "C19": ("fault_enumeration", "link-time fault injection (--wrap=idn2_to_ascii_8z) with ledger and fresh-object reference",
-         "Every libidn2 return code (+2 unknown) x with/without leftover buffer injected at every conversion position of runs of validations, plus random multi-fault histories; faulted call must be contained, every other call must equal the fault-free outcome, ledger/LSan must balance.",
+         "Every libidn2 return code (+2 unknown) x with/without leftover buffer injected at every conversion position of runs of validations, plus random multi-fault histories; faulted call must be contained, every other call must equal the fault-free outcome, ledger/LSan must balance; the message is read twice and under several allow_tld masks; threads failing at once with different codes (uninstrumented full-speed runner) must each get their own code's message.",
          "faults injected at the library boundary only (idn2_to_ascii_8z).", "DESIGN.md 4/C19"),
  "C20": ("exploration", "ASan+UBSan build of the tool as shipped (shared link) on generated files, monitored against a trimming model + the library's own verdicts",
-         "300 (quick) / 5000 (thorough) files of hostile line shapes; exit status, sanitizer silence, one verdict per non-comment line in order, verdict/message equality with the stand-alone library, echo for clean UTF-8 lines, stderr tally.",
+         "1500 (quick) / 20000 (thorough) files of hostile line shapes (incl. multi-MiB lines, 5000 and 20k-100k lines, page-multiple sizes, BOM, lone CR), 1-3 / 24 / 90 files per invocation under a descriptor limit, directories / missing paths / FIFOs / stdin among them, stdout to a pipe or a file, C and C.UTF-8 locales; exit status, sanitizer silence, one verdict per non-comment line in order, verdict/message equality with the stand-alone library, echo for clean UTF-8 lines, stderr tally.",
          "echo compared only for well-formed control-free lines.", "DESIGN.md 4/C20"),
 }
 TODO_REASON = "check not built yet in this round (planned, see DESIGN.md section 4); no claim is made"
